@@ -474,5 +474,18 @@ ASSUMPTIONS = ['all-sequences-upto-n explores configurations, not sequences: it 
                'below 2^53, for which float subtraction, max and comparison are exact; rounding of arbitrary floats is not modelled',
                'the oracle accepts, for a call that reads the clock more than once, any of the readings as "now" (restart reads it twice)',
                'thread-safety is out of scope (the class documents itself as not thread-safe)']
-LEVEL_TEXT = ''
-LEVEL_NOTE = ''
+LEVEL_TEXT = ('Unbounded theorems (induction over all call sequences of any length and all clock streams) about a model of StopWatch that is '
+              'proved equal, method by method (15 gen_*_equiv obligations), to a statement-level translation of the class regenerated from the '
+              'source on every run: elapsed never negative on any clock; = now - started_at while running and = stopped_at - started_at while '
+              'stopped under a monotonic clock (clamped at 0 otherwise), with started_at / stopped_at proved to be the readings of the last '
+              '(re)start / stop of the history; elapsed(maximum) <= maximum for maximum >= 0 (the literal clause for negative maxima is refuted: '
+              'it contradicts non-negativity); leftover = max(0, duration - elapsed) and the no-duration cases; expired <-> elapsed > duration; '
+              'splits non-decreasing with lengths = successive differences under a monotonic clock, cleared exactly by (re)starts; the full '
+              'legality table (13 methods x 3 states): every illegal call raises RuntimeError and leaves watch and clock untouched, every legal '
+              'call of every history returns, no other exception is ever raised; number of clock readings per call. The arithmetic facts are '
+              'also proved for every ordered abelian group (not only Z).')
+LEVEL_NOTE = ('Trusted: Coq kernel; the translator tools/gen/gen_C13.py (CPython ast; A-normal form, state kept on raise, fail-closed with baseline '
+              'fallback); numbers modelled as Z — the harness scripts clocks/durations/maxima that are integer multiples of 2^-k below 2^53, where '
+              'float arithmetic is exact (rounding of arbitrary floats is not modelled); timeutils.now is an input (scripted clock); '
+              'thread-safety out of scope. Correspondence compares every return value, exception class, number of now() calls and the five '
+              'private fields after every call. Closed under the global context (no axioms).')
